@@ -25,7 +25,7 @@ theorem enter_spec {α} {m : P α} {Qp : α → Prop} (h : T src Tr m (fun a _ =
     T src Tr (enter m) (fun a _ => Qp a) := by
   intro s hi _
   let s0 : PState := { s with depth := s.depth + 1, maxDepth := max s.maxDepth (s.depth + 1) }
-  have hi0 : Inv src s0 := hi.congr rfl rfl rfl
+  have hi0 : Inv src s0 := hi.congr rfl rfl rfl rfl
   have := h s0 hi0 trivial
   show match enter m s with
     | (.ok a, s') => Inv src s' ∧ Qp a
@@ -36,8 +36,8 @@ theorem enter_spec {α} {m : P α} {Qp : α → Prop} (h : T src Tr m (fun a _ =
   | mk r s1 =>
     rw [hm] at this
     cases r with
-    | error e => exact ⟨this.1, this.2.congr rfl rfl⟩
-    | ok a => exact ⟨this.1.congr rfl rfl rfl, this.2⟩
+    | error e => exact ⟨this.1, this.2.congr rfl rfl rfl⟩
+    | ok a => exact ⟨this.1.congr rfl rfl rfl rfl, this.2⟩
 
 theorem fuel_spec {α} {Q : α → PState → Prop} : T src Tr (P.throw .fuel : P α) Q := T.throw _ (fun _ _ => trivial)
 
@@ -149,34 +149,6 @@ theorem tblOK : ∀ n, TblOK src (tbl n)
 
 /-! ### entry points: the first `next()` establishes the invariant -/
 
-open P in
-/-- the part of `next` after the first scan -/
-def nextTail (trailing : Option Nat) (posTok : Option (Nat × Token)) : P Unit := do
-  let fuel := (← get).scan.src.size + 2
-  let posTok ← commentLoop fuel 0 trailing posTok
-  let s ← get
-  if let some comment := s.leadComments.back? then
-    let commentEndPos := comment.pos + comment.text.length
-    let commentEndLine ← trueLine commentEndPos
-    if let some (pos, _) := posTok then
-      let tokenStartLine ← trueLine pos
-      if tokenStartLine > commentEndLine + 1 then modify fun s => { s with leadComments := #[] }
-  setCurrent posTok
-
-open P in
-theorem next_eq : next = (do
-  let trailing ← if (← get).started then do pure (some (← trueLine (← scanPosition))) else pure none
-  modify fun s => { s with started := true }
-  let posTok ← scanNext
-  nextTail trailing posTok) := rfl
-
-theorem nextTail_spec (tr : Option Nat) (pt : Option (Nat × Token)) :
-    T src (CommentFacts pt) (nextTail tr pt) (fun _ _ => True) := by
-  unfold nextTail
-  hoare
-  all_goals first | exact (commentLoop_spec _ _ _ _).pre (fun s h => h.2) | skip
-  hoare
-
 /-- `next()` from any state over `src` (in particular a fresh parser): afterwards the invariant holds -/
 theorem next_establishes (s : PState) (hs : Inv0 src s) :
     match next s with
@@ -192,7 +164,7 @@ theorem next_establishes (s : PState) (hs : Inv0 src s) :
       nextTail trailing posTok : P Unit) s = (scanNext >>= nextTail tr) s1 := by
     cases hst : s.started <;> simp [tr, s1, hst, Bind.bind, P.get, P.modify, trueLine, scanPosition, Pure.pure]
   rw [e]
-  have h1 := scanNext_establishes (src := src) s1 (hs.congr rfl rfl)
+  have h1 := scanNext_establishes (src := src) s1 (hs.congr rfl rfl rfl)
   show match (Bind.bind scanNext (nextTail tr)) s1 with
     | (.ok _, s') => Inv src s'
     | (.error e, s') => ErrOK e s' ∧ Inv0 src s'
@@ -203,7 +175,7 @@ theorem next_establishes (s : PState) (hs : Inv0 src s) :
     cases r with
     | error er => exact h1
     | ok a =>
-      have := nextTail_spec (src := src) tr a s2 h1.1 h1.2
+      have := nextTail_spec (src := src) tr a h1.2.2 s2 h1.1 h1.2.1
       dsimp only
       cases hnt : nextTail tr a s2 with
       | mk r3 s3 =>
@@ -258,6 +230,9 @@ theorem parseFile_decls_spec : ∀ fuel acc, T src Tr (parseFile.decls r fuel ac
     once and in source order -/
 def CommentsSorted (f : File) : Prop := (f.comments.map (·.pos)).Pairwise (· < ·)
 
+/-- every entry of `File::comments` is a comment token the scanner produces from `src` at that offset -/
+def CommentsReal (src : Array Char) (f : File) : Prop := ∀ c ∈ f.comments, RealComment src c
+
 open P in
 /-- the end of `parse_file`: the comments move from the parser into the file -/
 def parseFileTail (docs : List Comment) (pkgName : Ident) (imps : List Import) (ds : List Declaration) : P File := do
@@ -281,20 +256,26 @@ theorem parseFile_eq (r : Tbl) : parseFile r = (do
     if !(← get).started then next
     parseFileRest r) := rfl
 
-theorem parseFileTail_spec (docs : List Comment) (pkgName : Ident) (imps : List Import) (ds : List Declaration) :
-    T src Tr (parseFileTail docs pkgName imps ds) (fun f _ => CommentsSorted f) := by
+theorem parseFileTail_spec (docs : List Comment) (pkgName : Ident) (imps : List Import) (ds : List Declaration)
+    (hpkg : RealIdent src pkgName) :
+    T src Tr (parseFileTail docs pkgName imps ds)
+      (fun f _ => CommentsSorted f ∧ CommentsReal src f ∧ RealIdent src f.pkg_name) := by
   unfold parseFileTail
   refine T.bind T.getInv (fun st => ?_)
   refine T.extract (p := Inv src st) (fun s h => by rw [h.1]; exact h.2.1) (fun hinv => ?_)
-  refine T.bind (Q1 := fun _ _ => True) ?_ (fun _ => T.pure _ (fun _ _ => hinv.sorted))
+  refine T.bind (Q1 := fun _ _ => True) ?_ (fun _ => T.pure _ (fun _ _ => ⟨hinv.sorted, hinv.real, hpkg⟩))
   refine T.set _ ?_
   intro s hi hr
   obtain ⟨rfl, _⟩ := hr
-  exact ⟨⟨⟨hi.src_eq, by simp, by simp⟩, hi.mark⟩, trivial⟩
+  exact ⟨⟨⟨hi.src_eq, by simp, by simp, by simp, hi.cur⟩, hi.mark⟩, trivial⟩
 
-theorem parseFileRest_spec : T src Tr (parseFileRest r) (fun f _ => CommentsSorted f) := by
+theorem parseFileRest_spec : T src Tr (parseFileRest r)
+    (fun f _ => CommentsSorted f ∧ CommentsReal src f ∧ RealIdent src f.pkg_name) := by
   unfold parseFileRest
+  refine T.bind drainComments_spec (fun docs => ?_)
+  refine T.bindP (T.anyQ parsePackage_spec) ⟨fun pkgName hpkg => ?_⟩
   hoare
+  all_goals first | exact T.anyQ (parseFileTail_spec _ _ _ _ hpkg) | exact hpkg | skip
 
 end
 
@@ -304,7 +285,7 @@ theorem initState_src (text : String) (profile : Profile) :
     (initState text profile).scan.src = text.toList.toArray ∧ (initState text profile).started = false := ⟨rfl, rfl⟩
 
 theorem initState_inv0 (text : String) (profile : Profile) : Inv0 text.toList.toArray (initState text profile) :=
-  ⟨rfl, by simp [initState], by simp [initState]⟩
+  ⟨rfl, by simp [initState], by simp [initState], by simp [initState], TokReal.none⟩
 
 /-- a result that is a tree or an error value -/
 def NoPanic {α} (r : Except PErr α) : Prop := ∀ site, r ≠ .error (.panic site)
@@ -338,7 +319,56 @@ theorem parseFile_comments_sorted (text : String) (profile : Profile) (n : Nat) 
   have := entry (src := text.toList.toArray) (parseFileRest (tbl n)) hk (initState text profile)
     (initState_inv0 text profile) rfl
   rw [← parseFile_eq, h] at this
-  exact this.2
+  exact this.2.1
+
+/-- **C11, whole parser: no comment is invented or altered.**  Whenever `parse_file` accepts a text, every
+    entry of `File::comments` is a comment token that the scanner, started in some state over that text,
+    produces at exactly the entry's offset, and the entry's text is that token's text -/
+theorem parseFile_comments_real (text : String) (profile : Profile) (n : Nat) (f : File) (s' : PState)
+    (h : parseFile (tbl n) (initState text profile) = (.ok f, s')) : CommentsReal text.toList.toArray f := by
+  have hk := @parseFileRest_spec text.toList.toArray (tbl n) (tblOK n)
+  have := entry (src := text.toList.toArray) (parseFileRest (tbl n)) hk (initState text profile)
+    (initState_inv0 text profile) rfl
+  rw [← parseFile_eq, h] at this
+  exact this.2.2.1
+
+/-- **C06 (one leaf), whole parser: the package name is the source's.**  Whenever `parse_file` accepts a
+    text, `File::pkg_name` carries the text and the offset of an identifier token that the scanner produces
+    from that text (the same holds, at the place of creation, for every `Ident`, `BasicLit` and string
+    literal node: `identifier_spec`, `literal_spec`, `stringLiteral_spec`) -/
+theorem parseFile_pkg_real (text : String) (profile : Profile) (n : Nat) (f : File) (s' : PState)
+    (h : parseFile (tbl n) (initState text profile) = (.ok f, s')) : RealIdent text.toList.toArray f.pkg_name := by
+  have hk := @parseFileRest_spec text.toList.toArray (tbl n) (tblOK n)
+  have := entry (src := text.toList.toArray) (parseFileRest (tbl n)) hk (initState text profile)
+    (initState_inv0 text profile) rfl
+  rw [← parseFile_eq, h] at this
+  exact this.2.2.2
+
+/-- what `RealComment` means in terms of the text alone: the entry's text is found verbatim in the source
+    at the entry's offset, and it is not empty -/
+theorem RealComment.verbatim {src : Array Char} {c : Comment} (h : RealComment src c) :
+    ∃ t : List Char, c.text = String.ofList t ∧ t ≠ [] ∧ t <+: src.toList.drop c.pos := by
+  obtain ⟨sc, sc', t, hsrc, hnt, htext⟩ := h
+  have hlt := (nextToken_comment sc sc' c.pos t hnt).2
+  rcases Gosyn.Props.C05.nextToken_at_pos sc sc' c.pos (.comment t) hnt with ⟨h1, _⟩ | ⟨k, hp, _, hpre, hs'⟩
+  · cases h1
+  · refine ⟨t, htext, ?_, ?_⟩
+    · intro h0
+      subst h0
+      simp only [Token.text, List.length_nil] at hs'
+      omega
+    · have : sc.rest.drop k = src.toList.drop c.pos := by
+        unfold Scanner.rest
+        rw [hp, ← hsrc]
+        simp [List.drop_drop, Nat.add_comm]
+        rw [List.take_of_length_le (by simp)]
+        simp [List.drop_drop, Nat.add_comm]
+      rw [← this]
+      exact hpre
+
+theorem runFile_comments_real (text : String) (profile : Profile) (f : File) (s' : PState)
+    (h : runFile text profile = (.ok f, s')) : CommentsReal text.toList.toArray f :=
+  parseFile_comments_real text profile _ f s' h
 
 /-- **C16, whole parser: every error is an error value that points at a place.**  Whenever `parse_file`
     rejects a text (for a reason other than the model's fuel), the error carries the (line, column) that
@@ -414,7 +444,7 @@ theorem expression_no_panic (text : String) (profile : Profile) (n : Nat) :
       (tblOK m).binaryExpression none 0 (by simp)
     let i0 : PState := initState text profile
     let s0 : PState := { i0 with depth := i0.depth + 1, maxDepth := max i0.maxDepth (i0.depth + 1) }
-    have := entry (src := text.toList.toArray) _ hk s0 ((initState_inv0 text profile).congr rfl rfl) rfl
+    have := entry (src := text.toList.toArray) _ hk s0 ((initState_inv0 text profile).congr rfl rfl rfl) rfl
     rw [← expressionBody_eq] at this
     show NoPanic (enter (expressionBody (tbl m)) (initState text profile)).1
     unfold enter
@@ -433,7 +463,7 @@ theorem parseStmt_no_panic (text : String) (profile : Profile) (n : Nat) :
     have hk := @parseStmtRest_spec text.toList.toArray (tbl m) (tblOK m)
     let i0 : PState := initState text profile
     let s0 : PState := { i0 with depth := i0.depth + 1, maxDepth := max i0.maxDepth (i0.depth + 1) }
-    have := entry (src := text.toList.toArray) _ hk s0 ((initState_inv0 text profile).congr rfl rfl) rfl
+    have := entry (src := text.toList.toArray) _ hk s0 ((initState_inv0 text profile).congr rfl rfl rfl) rfl
     rw [← parseStmtBody_eq] at this
     show NoPanic (enter (parseStmtBody (tbl m)) (initState text profile)).1
     unfold enter
